@@ -70,6 +70,15 @@ pub fn special_patterns() -> Vec<String> {
     for n in [99usize, 100, 101] {
         out.push(format!("\\w{}\\w", "a".repeat(n)).replace("\\\\", "\\"));
     }
+    // a group / repetition / alternation whose body is a concatenation of
+    // literal-free elements, between two literals (the literal extractor must
+    // not glue the literals together across it)
+    for g in [
+        "\\bab([a-z][A-Z])cd", "\\bab(?:[a-z][A-Z])cd", "\\bab([a-z][A-Z])+cd", "\\bab(?:\\w\\s|\\d\\d)cd", "\\bx(\\w\\s)y", "\\bab(\\w\\w)?cd",
+        "\\wab([a-z][A-Z])cd\\w", "ab([a-z][A-Z])cd", "\\bab([a-z][A-Z])cd\\b",
+    ] {
+        out.push(g.replace("\\\\", "\\"));
+    }
     // case-specific classes without any literal (smart case must stay
     // sensitive), with a lower-case literal, with an upper-case one
     for cs in ["\\p{Lu}", "\\p{Ll}", "[[:upper:]]", "[[:lower:]]+", "\\P{Lu}", "(?:\\p{Lu}|\\d)", "\\p{Lu}a", "\\p{Lu}A", "a[[:upper:]]", "[[:upper:]]\\b", "\\p{Lu}+$", "^\\p{Ll}"] {
